@@ -233,6 +233,34 @@ type rctx struct {
 	shared map[*node]ST
 	// reference side: how often each shared value was executed in this run
 	sharedRuns map[*node]int
+	// library side: when false (the normal mode) every caller-owned slice handed to a combinator
+	// (Sequence, SequenceIterator's / Traverse's / FoldM's backing slice, the slice spread into
+	// Concat's variadic parameter) is overwritten as soon as the call has returned: the program
+	// is a value built from the inputs as they were at the call. true = control run.
+	keepInputs bool
+}
+
+// overwriteST / overwriteInts: the caller re-uses its buffer after the combinator returned.
+func (c *rctx) overwriteST(ps []ST) {
+	if c.keepInputs {
+		return
+	}
+	for j := range ps {
+		j := j
+		ps[j] = statet.Run(func(s S) (int, S) {
+			c.ev(event{id: -1000 - j, tag: '!', s: s})
+			return -7777 - j, s + "<INPUT-SLICE-OVERWRITTEN-AFTER-BUILD>"
+		})
+	}
+}
+
+func (c *rctx) overwriteInts(xs []int) {
+	if c.keepInputs {
+		return
+	}
+	for j := range xs {
+		xs[j] += 100003
+	}
 }
 
 // visit: the reference entered node n with argument env in state s (used only to name the
@@ -683,45 +711,57 @@ func (c *rctx) build(n *node, env int) ST {
 		for i, kid := range n.kids {
 			ps[i] = c.build(kid, env)
 		}
-		return statet.Map(statet.Sequence(ps), func(l []int) int { return hashList(l) + n.k })
+		q := statet.Sequence(ps)
+		c.overwriteST(ps)
+		return statet.Map(q, func(l []int) int { return hashList(l) + n.k })
 	case kSequenceIterator:
 		ps := make([]ST, len(n.kids))
 		for i, kid := range n.kids {
 			ps[i] = c.build(kid, env)
 		}
-		return statet.Map(statet.SequenceIterator(iterator.FromSeq(ps)), func(it fp.Iterator[int]) int { return hashList(it.ToSeq()) + n.k })
+		q := statet.SequenceIterator(iterator.FromSeq(ps))
+		c.overwriteST(ps)
+		return statet.Map(q, func(it fp.Iterator[int]) int { return hashList(it.ToSeq()) + n.k })
 	case kConcat:
 		ps := make([]ST, len(n.kids))
 		for i, kid := range n.kids {
 			ps[i] = c.build(kid, env)
 		}
-		return statet.Concat(ps[0], ps[1:]...)
+		q := statet.Concat(ps[0], ps[1:]...) // the variadic parameter IS ps[1:]
+		c.overwriteST(ps)
+		return q
 	case kTraverse, kTraverseFunc:
 		fn := func(a int) ST { return c.build(n.kids[0], a) }
 		var r fp.StateT[S, fp.Iterator[int]]
+		its := append([]int(nil), n.items...)
 		if n.kind == kTraverse {
-			r = statet.Traverse(iterator.FromSeq(append([]int(nil), n.items...)), fn)
+			r = statet.Traverse(iterator.FromSeq(its), fn)
 		} else {
-			r = statet.TraverseFunc[S](fn)(iterator.FromSeq(append([]int(nil), n.items...)))
+			r = statet.TraverseFunc[S](fn)(iterator.FromSeq(its))
 		}
+		c.overwriteInts(its)
 		return statet.Map(r, func(it fp.Iterator[int]) int { return hashList(it.ToSeq()) + n.k })
 	case kTraverseSeq, kTraverseSeqFunc:
 		fn := func(a int) ST { return c.build(n.kids[0], a) }
 		var r fp.StateT[S, fp.Seq[int]]
+		its := append([]int(nil), n.items...)
 		if n.kind == kTraverseSeq {
-			r = statet.TraverseSeq(fp.Seq[int](append([]int(nil), n.items...)), fn)
+			r = statet.TraverseSeq(fp.Seq[int](its), fn)
 		} else {
-			r = statet.TraverseSeqFunc[S](fn)(fp.Seq[int](append([]int(nil), n.items...)))
+			r = statet.TraverseSeqFunc[S](fn)(fp.Seq[int](its))
 		}
+		c.overwriteInts(its)
 		return statet.Map(r, func(l fp.Seq[int]) int { return hashList(l) + n.k })
 	case kTraverseSlice, kTraverseSliceFunc:
 		fn := func(a int) ST { return c.build(n.kids[0], a) }
 		var r fp.StateT[S, []int]
+		its := append([]int(nil), n.items...)
 		if n.kind == kTraverseSlice {
-			r = statet.TraverseSlice(append([]int(nil), n.items...), fn)
+			r = statet.TraverseSlice(its, fn)
 		} else {
-			r = statet.TraverseSliceFunc[S](fn)(append([]int(nil), n.items...))
+			r = statet.TraverseSliceFunc[S](fn)(its)
 		}
+		c.overwriteInts(its)
 		return statet.Map(r, func(l []int) int { return hashList(l) + n.k })
 	case kFlatMapTraverseSeq:
 		ta := statet.Map(c.build(n.kids[1], env), func(v int) fp.Seq[int] { return fp.Seq[int](shifted(n.items, v)) })
@@ -732,7 +772,10 @@ func (c *rctx) build(n *node, env int) ST {
 		r := statet.FlatMapTraverseSlice(ta, func(a int) ST { return c.build(n.kids[0], a) })
 		return statet.Map(r, func(l []int) int { return hashList(l) + n.k })
 	case kFoldM:
-		return statet.FoldM(iterator.FromSeq(append([]int(nil), n.items...)), n.k, func(b, a int) ST { return c.build(n.kids[0], b*3+a) })
+		its := append([]int(nil), n.items...)
+		q := statet.FoldM(iterator.FromSeq(its), n.k, func(b, a int) ST { return c.build(n.kids[0], b*3+a) })
+		c.overwriteInts(its)
+		return q
 	}
 	p := c.build(n.kids[0], env)
 	switch n.kind {
@@ -1137,13 +1180,13 @@ func setSizes(n *node) int {
 // compareOnce builds subtree n alone (argument env) ONCE and executes that program value
 // `runs` times from state s, in the library and in the reference. A disagreement of a later
 // execution is reported as what == "rerun-differs".
-func compareOnce(n *node, env int, s string, fails []bool, errs []error, runs int) (ok bool, what, detail string) {
+func compareOnce(n *node, env int, s string, fails []bool, errs []error, runs int, keepInputs bool) (ok bool, what, detail string) {
 	defer func() {
 		if r := recover(); r != nil {
 			ok, what, detail = false, "panic", fmt.Sprint(r)
 		}
 	}()
-	lc := &rctx{fails: fails, errs: errs}
+	lc := &rctx{fails: fails, errs: errs, keepInputs: keepInputs}
 	p := lc.build(n, env)
 	for x := 0; x < runs; x++ {
 		rc := &rctx{fails: fails, errs: errs}
@@ -1184,7 +1227,7 @@ func blame(visits []visit, fails []bool, errs []error, runs int) (site_ string, 
 		if best >= 0 && v.n.size >= visits[best].n.size {
 			continue
 		}
-		if ok, _, _ := compareOnce(v.n, v.env, v.s, fails, errs, runs); !ok {
+		if ok, _, _ := compareOnce(v.n, v.env, v.s, fails, errs, runs, false); !ok {
 			best = i
 		}
 	}
@@ -1192,7 +1235,16 @@ func blame(visits []visit, fails []bool, errs []error, runs int) (site_ string, 
 		return "", "", "", false
 	}
 	v := visits[best]
-	_, what, detail = compareOnce(v.n, v.env, v.s, fails, errs, runs)
+	_, what, detail = compareOnce(v.n, v.env, v.s, fails, errs, runs, false)
+	// control: the same sub-program with the caller's input slices left alone after the build.
+	// If that agrees, the program read its input slice after it was built; if not, the
+	// control's verdict names the defect (it does not depend on what the harness wrote).
+	if cok, cwhat, cdetail := compareOnce(v.n, v.env, v.s, fails, errs, runs, true); cok {
+		what = "reads-input-after-build"
+		detail += "\n(the slice handed to the combinator was overwritten by its owner when the call had returned; with the slice left alone the same program agrees with the reference on every execution)"
+	} else {
+		what, detail = cwhat, cdetail
+	}
 	return siteOfNode(v.n), what, "smallest disagreeing sub-program: " + detail, true
 }
 
@@ -2237,7 +2289,39 @@ func (sp *stepper) step(j int) ST {
 	return run
 }
 
+// lawLeftToRight reports through w.Violation. The slices handed to Sequence / SequenceIterator /
+// Traverse* / FoldM / Concat are overwritten by their owner as soon as the combinator has
+// returned; a violation is re-examined by a control run that leaves them alone and is keyed
+// statet.<comb>/reads-input-after-build when the control is clean.
 func lawLeftToRight(w *vrt.W, i int, comb string, both []string, n, failAt int, wit map[string]any) {
+	key, detail := lawLeftToRight1(w, comb, both, n, failAt, false)
+	if key == "" {
+		return
+	}
+	if ckey, cdetail := lawLeftToRight1(w, comb, both, n, failAt, true); ckey == "" {
+		key = "statet." + comb + "/reads-input-after-build"
+		detail += "\n(the slice handed to " + comb + " was overwritten by its owner when the call had returned; with the slice left alone the law holds)"
+	} else {
+		key, detail = ckey, cdetail
+	}
+	w.Violation(i, key, detail, wit)
+}
+
+func lawLeftToRight1(w *vrt.W, comb string, both []string, n, failAt int, keepInputs bool) (vkey, vdetail string) {
+	overwriteST := func(ps []ST) {
+		for j := range ps {
+			if !keepInputs {
+				ps[j] = statet.Run(func(s S) (int, S) { return -7777, s + "<INPUT-SLICE-OVERWRITTEN-AFTER-BUILD>" })
+			}
+		}
+	}
+	overwriteInts := func(xs []int) {
+		for j := range xs {
+			if !keepInputs {
+				xs[j] = (xs[j] + 1) % len(xs)
+			}
+		}
+	}
 	sp := &stepper{called: make([]int, n), e: &progErr{idx: 77}, failAt: failAt}
 	idx := make([]int, n)
 	for j := range idx {
@@ -2298,6 +2382,7 @@ func lawLeftToRight(w *vrt.W, i int, comb string, both []string, n, failAt int, 
 		} else {
 			p = statet.Map(statet.SequenceIterator(iterator.FromSeq(ps)), func(it fp.Iterator[int]) int { return fold(it.ToSeq()) })
 		}
+		overwriteST(ps)
 	case "Traverse":
 		p = statet.Map(statet.Traverse(iterator.FromSeq(idx), sp.step), func(it fp.Iterator[int]) int {
 			v := 0
@@ -2306,6 +2391,7 @@ func lawLeftToRight(w *vrt.W, i int, comb string, both []string, n, failAt int, 
 			}
 			return v
 		})
+		overwriteInts(idx)
 	case "TraverseSeq":
 		p = statet.Map(statet.TraverseSeq(fp.Seq[int](idx), sp.step), func(l fp.Seq[int]) int {
 			v := 0
@@ -2314,6 +2400,7 @@ func lawLeftToRight(w *vrt.W, i int, comb string, both []string, n, failAt int, 
 			}
 			return v
 		})
+		overwriteInts(idx)
 	case "TraverseSlice":
 		p = statet.Map(statet.TraverseSlice(idx, sp.step), func(l []int) int {
 			v := 0
@@ -2322,14 +2409,17 @@ func lawLeftToRight(w *vrt.W, i int, comb string, both []string, n, failAt int, 
 			}
 			return v
 		})
+		overwriteInts(idx)
 	case "FoldM":
 		p = statet.FoldM(iterator.FromSeq(idx), 0, func(acc, j int) ST { return statet.Map(sp.step(j), func(v int) int { return sum(acc, v) }) })
+		overwriteInts(idx)
 	case "Concat":
 		ps := make([]ST, n)
 		for j := range ps {
 			ps[j] = sp.step(j)
 		}
 		p = statet.Concat(ps[0], ps[1:]...)
+		overwriteST(ps)
 		wantVal = n - 1
 	default:
 		panic("unknown combinator " + comb)
@@ -2362,16 +2452,13 @@ func lawLeftToRight(w *vrt.W, i int, comb string, both []string, n, failAt int, 
 		}
 		if failAt < 0 {
 			if !t.IsSuccess() || t.Get() != wantVal {
-				w.Violation(i, k("left-to-right-value"), nth+fmt.Sprintf("%d steps through %s from %q: result %s, expected Success(%d)", n, comb, s0, tryStr(t), wantVal), wit)
-				return
+				return k("left-to-right-value"), nth+fmt.Sprintf("%d steps through %s from %q: result %s, expected Success(%d)", n, comb, s0, tryStr(t), wantVal)
 			}
 		} else if !t.IsFailure() || t.Failed().Get() != sp.e {
-			w.Violation(i, k("failure-not-reported"), nth+fmt.Sprintf("%d steps through %s, step %d fails: result %s", n, comb, failAt, tryStr(t)), wit)
-			return
+			return k("failure-not-reported"), nth+fmt.Sprintf("%d steps through %s, step %d fails: result %s", n, comb, failAt, tryStr(t))
 		}
 		if s != wantS {
-			w.Violation(i, k("state-at-failure"), nth+fmt.Sprintf("%d steps through %s from %q, failing step %d: final state %q, expected %q", n, comb, s0, failAt, s, wantS), wit)
-			return
+			return k("state-at-failure"), nth+fmt.Sprintf("%d steps through %s from %q, failing step %d: final state %q, expected %q", n, comb, s0, failAt, s, wantS)
 		}
 		for j, c := range sp.called {
 			want := 1
@@ -2379,14 +2466,14 @@ func lawLeftToRight(w *vrt.W, i int, comb string, both []string, n, failAt int, 
 				want = 0
 			}
 			if c != want {
-				w.Violation(i, k("step-after-failure-ran"), nth+fmt.Sprintf("%d steps through %s, failing step %d: step %d ran %d times, expected %d", n, comb, failAt, j, c, want), wit)
-				return
+				return k("step-after-failure-ran"), nth+fmt.Sprintf("%d steps through %s, failing step %d: step %d ran %d times, expected %d", n, comb, failAt, j, c, want)
 			}
 		}
-		if failAt >= 0 {
+		if failAt >= 0 && !keepInputs {
 			w.Add("laws.left_to_right_with_failure", 1)
 		}
 	}
+	return "", ""
 }
 
 func lawRecover(w *vrt.W, i int, r *rand.Rand, both []string, n, failAt int, wit map[string]any) {
@@ -2532,16 +2619,33 @@ func rerunBatches(tier string) int {
 	return 2
 }
 
+// programBatches + the batches before them; the capture batches come last so that the PRNG
+// streams of the older batches stay where they were.
+func classicBatches(tier string) int {
+	if tier == "thorough" {
+		return 96 + lawBatches + rerunBatches(tier)
+	}
+	return 16 + lawBatches + rerunBatches(tier)
+}
+
+func captureBatches(tier string) int {
+	if tier == "thorough" {
+		return 8
+	}
+	return 2
+}
+
 func main() {
 	vrt.Main(vrt.Config{
 		Property: "C17",
-		Batches: func(tier string) int {
-			if tier == "thorough" {
-				return 96 + lawBatches + rerunBatches(tier)
-			}
-			return 16 + lawBatches + rerunBatches(tier)
-		},
+		Batches:  func(tier string) int { return classicBatches(tier) + captureBatches(tier) },
 		Cases: func(tier string, b int) int {
+			if b >= classicBatches(tier) {
+				if tier == "thorough" {
+					return 6000
+				}
+				return 3000
+			}
 			if b < lawBatches {
 				if tier == "thorough" {
 					return 20000
@@ -2562,6 +2666,8 @@ func main() {
 		Run: func(w *vrt.W) {
 			for i := w.From; i < w.To; i++ {
 				switch {
+				case w.Batch >= classicBatches(w.Tier):
+					runCaptureCase(w, i)
 				case w.Batch < lawBatches:
 					runLawCase(w, i)
 				case w.Batch < lawBatches+rerunBatches(w.Tier):
@@ -2630,6 +2736,19 @@ func main() {
 			for _, l := range lawNames {
 				f["hit.law/"+l] = 100
 			}
+			// input capture: every slice / variadic / iterator site, every length, every script step
+			for _, k := range captureKinds {
+				f["hit.capture/"+site(k)] = 400
+			}
+			for _, n := range captureSizes {
+				f["capture.slice_len."+strconv.Itoa(n)] = 200
+			}
+			for _, t := range tamperName {
+				f["capture.tamper."+t] = 1000
+			}
+			f["capture.cases"] = 5000
+			f["capture.executions_after_the_caller_reused_its_slice"] = 20000
+			f["capture.concat_with_two_or_more_variadic_steps"] = 300
 			return f
 		},
 	})
